@@ -581,4 +581,8 @@ def check(ctx, rep):
 
     # a reported site stays unfixed when an earlier site of the run consumed the shared argument specification
     rule_args_info_fresh(ctx, rep)
+    from .c09 import rule_fresh_visitor
+
+    # a reported site is skipped when a helper visitor still holds what it gathered for an earlier site
+    rule_fresh_visitor(ctx, rep)
     rep.not_covered += ["column arithmetic of match_location against each tool's real output", "closed/resolved issue filtering beyond the Sonar status test"]
